@@ -78,6 +78,24 @@ def handle (line : String) : String :=
     match o.hex? "file" with
     | some f => runQueries o f
     | none => "bad-op"
+  | "skl" =>   -- a line written by Line / HashHostname: callback verdict and matching lines per address
+    match (splitList (o.str "addrs") ",").mapM ofHex, o.hex? "type", o.hex? "blob", o.hex? "salt",
+        (o.get? "kt").bind parseKT, o.nat? "key" with
+    | some addrs, some t, some b, some salt, some kt, some key =>
+      let file := if o.str "mode" == "hash"
+        then hashHostname salt (normalize (addrs.headD [])) ++ cSP :: t ++ cSP :: b64Encode b
+        else knownHostsLine addrs t b
+      match readDB kt file with
+      | .error n => s!"parse-err:{n}"
+      | .ok db => "|".intercalate (addrs.map fun a =>
+          let v := showVerdict (db.checkHostKey 0 a (s2b "10.9.9.9:22") (.plain key))
+          match splitHostPort a with
+          | none => v ++ "/k:?"
+          | some (h, p) =>
+            match db.checkAddr ⟨h, p⟩ 0 with
+            | .keyErr ls => v ++ "/k:" ++ showNats ls
+            | w => v ++ "/k:" ++ showVerdict w)
+    | _, _, _, _, _, _ => "bad-op"
   | "wm" =>   -- pattern × host matrix: for every host the lines (= patterns) that match it on port 22
     match o.hex? "file", (o.get? "kt").bind parseKT, (splitList (o.str "hosts") ",").mapM ofHex with
     | some f, some kt, some hosts =>
